@@ -388,3 +388,79 @@ fn c01_o5_deep_verify_arms() {
     std::mem::forget(header);
     std::mem::forget(zalsa);
 }
+
+// ---------------------------------------------------------------------------------------------
+// C20-O6: a provisional memo is promoted to final only by a cycle head finalized in the same revision
+// ---------------------------------------------------------------------------------------------
+
+// @verif prop=C20,C01 obl=O6 tier=thorough bounds="one provisional participant memo with one cycle head; the head is a real `function::IngredientImpl<VFn>` registered in the Zalsa whose memo sits in a page-backed memo table; symbolic: head final/provisional/poisoned, head verified_at, head iteration, participant verified_at < now, head verified_at <= now, recorded head iteration; cancellation epochs equal"
+// @+ encodes="MemoHeader::validate_may_be_provisional, validate_provisional, Zalsa::lookup_ingredient, Ingredient::as_function (dyn), FunctionIngredientRef::provisional_status, IngredientImpl::<VFn>::provisional_status, MemoHeader::provisional_status, IngredientImpl::get_memo_from_table_for, CycleHeads iteration"
+/// C20-O6: a provisional result (computed from cycle-head values of some revision and iteration) is accepted as final
+/// only if its cycle head is final, was verified in the *same* revision as the provisional result, and finished in the
+/// same iteration the result was computed from; in particular a result abandoned in an older revision is never promoted
+/// by a head that was finalized later.
+#[kani::proof]
+#[kani::unwind(5)]
+#[kani::stub(real_catch_unwind, stub_catch_unwind)]
+#[kani::stub(crate::sync::max_parallelism, crate::interned::verif::stub_max_parallelism)]
+fn c20_o6_provisional_needs_head_of_same_revision() {
+    use crate::function::memo::Memo;
+    use crate::input::verif::alloc_vin_with_types;
+    use crate::table::memo::{MemoEntryType, MemoTableTypes};
+    let head_fn_index = crate::zalsa::IngredientIndex::new(3);
+    let mut ingredients = vin_ingredients();
+    ingredients.push(Box::new(IngredientImpl::<VFn>::new(head_fn_index, VMemoMap, 0)));
+    let (zalsa, revs) = zalsa_with(ingredients);
+    let now = revs[0];
+    let idx = MemoIngredientIndex::from_usize(0);
+    let mut types = MemoTableTypes::default();
+    types.set(idx, MemoEntryType::of::<Memo<VFn>>());
+    let id = alloc_vin_with_types(&zalsa, [Revision::start(); 2], [Durability::LOW; 2], crate::sync::Arc::new(types));
+    let head_key = crate::DatabaseKeyIndex::new(head_fn_index, id);
+
+    // the cycle head's memo
+    let head_final: bool = kani::any();
+    let head_has_value: bool = kani::any();
+    let head_v: usize = kani::any();
+    kani::assume(1 <= head_v && head_v <= now);
+    let head_it: u8 = kani::any();
+    kani::assume(head_it <= 200);
+    let head_stamp = crate::cycle::verif::stamp(head_it, 0);
+    let mut head_rev = revisions_of(1, Durability::LOW, origin_of(OriginShape::Derived), head_final);
+    head_rev.set_cycle_heads(CycleHeads::default(), head_stamp); // records the iteration in the extra data
+    let head_memo = Memo::<VFn> { header: header_of(head_v, head_rev), value: if head_has_value { Some(1) } else { None } };
+    let head_ptr = std::ptr::NonNull::from(Box::leak(Box::new(head_memo)));
+    // SAFETY: the page's memo table types match `Memo<VFn>`.
+    assert!(unsafe { zalsa.table().memos::<crate::input::Value<crate::input::verif::VIn>>(id, Revision::from(now)) }
+        .insert(idx, head_ptr)
+        .is_none());
+
+    // the participant's provisional memo, computed from the head in iteration `seen_it`
+    let part_v: usize = kani::any();
+    // computed in an earlier revision than the current one (the same-revision reuse path goes through
+    // the sync table and `thread::current()`, which Kani cannot execute)
+    kani::assume(1 <= part_v && part_v < now);
+    let seen_it: u8 = kani::any();
+    kani::assume(seen_it <= 200);
+    let seen_stamp = crate::cycle::verif::stamp(seen_it, 0);
+    let me = key(9, 0, 0);
+    let mut part_rev = revisions_of(1, Durability::LOW, origin_of(OriginShape::Derived), false);
+    part_rev.set_cycle_heads(CycleHeads::initial(head_key, seen_stamp), seen_stamp);
+    let part = header_of(part_v, part_rev);
+    let local = ZalsaLocal::new();
+    let ok = part.validate_may_be_provisional(&zalsa, &local, me);
+    if ok {
+        assert!(head_final && head_has_value || head_final, "C20/C01: a provisional result was accepted although its cycle head is not final");
+        assert!(head_v == part_v, "C20: a provisional result was promoted by a cycle head finalized in a different revision");
+        assert!(head_it == seen_it, "C01: a provisional result was promoted by a cycle head that finished in a different iteration");
+        assert!(!part.may_be_provisional(), "C01: accepted provisional memo not marked final");
+    } else {
+        assert!(part.may_be_provisional());
+    }
+    kani::cover!(ok);
+    kani::cover!(!ok && head_final && head_v > part_v);
+    kani::cover!(!ok && head_final && head_v == part_v);
+    std::mem::forget(part);
+    std::mem::forget(local);
+    std::mem::forget(zalsa);
+}
